@@ -10,7 +10,7 @@
                  order; it IS [FileStruct.record_lines] of the rendered lines.
    [read_file]   Reader.Read on the lines handed to readLine, following
                  reader.go: parseLine (first byte), parseBH (IAT batch header
-                 detection by BYTE columns 50..53 = "IAT" or company name
+                 detection by columns 50..53 = "IAT" or company name
                  "IATCOR"), parseED / parseEDAddenda (batch context: current
                  batch vs. current IAT batch, ADV by the parsed SEC code),
                  parseAddenda / parseADVAddenda / parseIATAddenda (addenda type
@@ -72,10 +72,13 @@ Definition line_handlers : list (bytes * string) :=
 (* `if r.line[:2] == "99" { break }` in the file-control case *)
 Definition pad_test : nat * nat * bytes := (0, 2, bstr "99").
 
-(* parseBH: `r.line[50:53] == IAT || strings.TrimSpace(r.line[04:20]) == IATCOR`
-   as (lo, hi, TrimSpace applied, constant), BYTE columns *)
-Definition iat_detect : list (nat * nat * bool * bytes) :=
-  [ (50, 53, false, bstr "IAT"); (4, 20, true, bstr "IATCOR") ].
+(* parseBH: `line := []rune(r.line)`;
+   `string(line[50:53]) == IAT || strings.TrimSpace(string(line[4:20])) == IATCOR`
+   as (unit of the columns, lo, hi, TrimSpace applied, constant).  Columns are
+   counted in characters since the fix 272ca522 (they were bytes before: a
+   multi-byte company name shifted them, see docs/C01-file.md) *)
+Definition iat_detect : list (indexing * nat * nat * bool * bytes) :=
+  [ (IRune, 50, 53, false, bstr "IAT"); (IRune, 4, 20, true, bstr "IATCOR") ].
 
 (* one case of an addenda switch: the record type constructed, possibly chosen
    by predicates on the code columns (first predicate that holds, else default) *)
@@ -141,7 +144,7 @@ Definition record_ctors : list (string * list string) :=
 Definition reader_guards : list (string * list string) :=
   [ ("parseLine", ["r.currentBatch != nil"; "len(r.currentBatch.GetEntries()) == 0"; "!r.skipBatchAccumulation"
                   ; "r.currentBatch != nil"; "!r.skipBatchAccumulation"; "!r.skipBatchAccumulation"; "r.line[:2] == ""99"""])
-  ; ("parseBH", ["r.line[50:53] == IAT || strings.TrimSpace(r.line[04:20]) == IATCOR"])
+  ; ("parseBH", ["len(line) >= 53 && (string(line[50:53]) == IAT || strings.TrimSpace(string(line[4:20])) == IATCOR)"])
   ; ("parseED", ["r.IATCurrentBatch.Header != nil"])
   ; ("parseEDAddenda", ["r.currentBatch != nil && r.currentBatch.GetHeader().CompanyName != IATCOR"])
   ; ("parseEntryDetail", ["r.currentBatch == nil"; "r.currentBatch.GetHeader().StandardEntryClassCode != ADV"])
@@ -192,9 +195,13 @@ Definition kind_by (arms : list (bytes * arm)) (line : bytes) : option string :=
   | None => None
   end.
 
-Definition detect1 (d : nat * nat * bool * bytes) (line : bytes) : bool :=
-  let '(lo, hi, tr, c) := d in
-  bytes_eqb (if tr then trim (bsub line lo hi) else bsub line lo hi) c.
+(* string([]rune(line)[lo:hi]): the characters as the scanner yields them *)
+Definition csub (l : bytes) (lo hi : nat) : bytes := sub (chars l) lo hi.
+
+Definition detect1 (d : indexing * nat * nat * bool * bytes) (line : bytes) : bool :=
+  let '(ix, lo, hi, tr, c) := d in
+  let t := match ix with IRune => csub line lo hi | IByte => bsub line lo hi end in
+  bytes_eqb (if tr then trim t else t) c.
 Definition iat_line (line : bytes) : bool := existsb (fun d => detect1 d line) iat_detect.
 
 Definition pad_line (line : bytes) : bool :=
